@@ -21,6 +21,7 @@ REQUIRED = {
     "member_vs_joint_checks": 40, "vector_input_checks": 10, "bound_checks": 8,
     "aggregate_checks": 8, "epochs_observed": 5, "nll_checks": 5,
     "plan_value_checks": 5, "ts_inf_steps_checked": 10, "pendulum_rewards": 100,
+    "epochs_with_poisoned_unused_rows": 2, "train_sets_beyond_16_bit_indices": 1,
 }
 TIMEOUT = {"quick": 1200, "thorough": 7000}
 ASSUMPTIONS = ["float32 outputs compared with float64 references, rtol 1e-4"]
